@@ -27,6 +27,10 @@ type C13Step struct {
 
 type C13Case struct {
 	Steps []C13Step `json:"steps"`
+	// kind "objects" (c13_objects.go): header writes on one HTTP object during a real request
+	Kind   string     `json:"kind,omitempty"`
+	Path   string     `json:"path,omitempty"`
+	ObjOps []C13ObjOp `json:"obj_ops,omitempty"`
 }
 
 const c13Subs = `
@@ -66,7 +70,7 @@ sub fn_i(INTEGER var.n) INTEGER {
 
 func init() {
 	register("C13",
-		"straight-line and branching core-language programs over a pool of locals of every type and req headers, plus calls of user subroutines with typed parameters (procedural and functional) that assign to their parameters and own locals and run regex matches, and side-effect-free built-ins; the interpreter is driven statement by statement and the rendering/type/set-ness of every pooled name and re.group.0-3 is snapshotted before and after each statement; oracle (frame conditions): a statement changes only the names it assigns (re.group.* only if it contains a regex match), a call leaves caller locals, capture groups and argument variables unchanged. non-trivial: the statement reads >=1 pooled variable other than its target through an operator or call; distinct by program",
+		"straight-line and branching core-language programs over a pool of locals of every type and req headers, plus calls of user subroutines with typed parameters (procedural and functional) that assign to their parameters and own locals and run regex matches, and side-effect-free built-ins; the interpreter is driven statement by statement and the rendering/type/set-ness of every pooled name and re.group.0-3 is snapshotted before and after each statement; oracle (frame conditions): a statement changes only the names it assigns (re.group.* only if it contains a regex match), a call leaves caller locals, capture groups and argument variables unchanged; kind objects: during a real request (miss, pass and error paths) set/add/unset of header A or B on one of req/bereq/beresp/obj/resp leaves the same-named headers of the other objects unchanged. non-trivial: the statement reads >=1 pooled variable other than its target through an operator or call; distinct by program",
 		genC13, checkC13, 10*time.Second)
 }
 
@@ -146,6 +150,9 @@ func readsOther(s *ref.Stmt) bool {
 }
 
 func genC13(t *rapid.T) any {
+	if rapid.IntRange(0, 5).Draw(t, "objects") == 0 {
+		return genC13Objects(t)
+	}
 	g := &coreGen{t: t}
 	var c C13Case
 	add := func(s *ref.Stmt) {
@@ -228,6 +235,9 @@ func checkC13(raw json.RawMessage) iso.Result {
 	var c C13Case
 	if err := json.Unmarshal(raw, &c); err != nil {
 		return iso.Failf("bad case: %v", err)
+	}
+	if c.Kind == "objects" {
+		return checkC13Objects(c)
 	}
 	col := iso.NewCollector("C13")
 	vcl := "backend b { .host = \"127.0.0.1\"; .port = \"1\"; }\n" + c13Subs + "sub vcl_recv { }\n"
